@@ -339,6 +339,9 @@ static std::string outpath_for(const Plan& p, const std::string& root) {
         case 8: return "./noext2";                 // no extension, but a dot earlier in the path
         case 9: return "out.d/module";
         case 10: return "out/../out/mod";
+        case 11: return "gen[12]/out.c";           // directory names that are glob patterns (C20 only), with sibling directories they match
+        case 12: return "build*/o.c";
+        case 13: return root + "/abs/v?/m.c";
         default: return "out/a.c";
     }
 }
@@ -364,7 +367,7 @@ static Plan make_plan(const std::string& prop, uint64_t root, uint64_t idx, bool
     else if (g.below(6) == 0) p.args.push_back({"-d", "arrays"});
     if (!ce.ref.empty() && g.below(3) == 0) { p.ref = g.below(5) == 0 ? ce.wasm : ce.ref; p.changed = ce.changed; }
     if (prop == "C20" ? g.below(2) == 0 : g.below(5) == 0) p.args.push_back({"-c"});
-    p.shape = (int)g.below(11);
+    p.shape = (int)g.below(prop == "C20" ? 14 : 11);
     if (prop != "C20" && p.shape == 5) p.shape = 7;   // an output named like an implementation file collides with it: only meaningful for C20
     p.input_in_outdir = g.below(5) == 0;
     // decoys
@@ -376,6 +379,11 @@ static Plan make_plan(const std::string& prop, uint64_t root, uint64_t idx, bool
         FileSpec f; f.rel = w + "/" + DECOY_NAMES[k][0]; f.kind = std::string(DECOY_NAMES[k][1]) + (w == "@out" ? "" : "-outside");
         bool dup = false; for (auto& d : p.decoys) if (d.rel == f.rel) dup = true;
         if (!dup) p.decoys.push_back(f);
+    }
+    if (p.shape >= 11 && p.shape <= 13) {
+        static const char* sib[3][3] = {{"@work/gen1/", "@work/gen2/", "@work/gen/"}, {"@work/buildX/", "@work/build/", "@work/build.old/"}, {"@abs/v1/", "@abs/vv/", "@abs/v/"}};
+        static const char* names[] = {"s0000000007.c", "d0000000003.c", "s0000000000.c", "notes.txt"};
+        for (int k = 0; k < 3; k++) for (int n = 0; n < 4; n++) if (g.below(3) != 0) { FileSpec f; f.rel = std::string(sib[p.shape - 11][k]) + names[n]; f.kind = n < 3 ? "stale-impl-in-sibling-dir-matching-glob" : "user-file-in-sibling-dir"; p.decoys.push_back(f); }
     }
     if (prop == "C20" && g.below(4) == 0) { FileSpec f; f.rel = "@out/s0000000002.c/"; f.kind = "directory-with-impl-name"; p.decoys.push_back(f); }
     // run-level knobs
@@ -450,8 +458,10 @@ static void run_translator(const Plan& p, bool canonical, RunOut& o) {
         else if (rel.compare(0, 6, "@work/") == 0) base = work + "/" + rel.substr(6);
         else if (rel.compare(0, 4, "@in/") == 0) base = root + "/in/" + rel.substr(4);
         else if (rel.compare(0, 7, "@other/") == 0) base = root + "/other/" + rel.substr(7);
+        else if (rel.compare(0, 5, "@abs/") == 0) base = root + "/abs/" + rel.substr(5);
         else continue;
         if (!base.empty() && base.back() == '/') { base.pop_back(); mkdirs(base); FILE* f = __real_fopen((base + "/inner.c").c_str(), "w"); if (f) { fputs("inner\n", f); __real_fclose(f); } o.kinds[base + "/inner.c"] = d.kind; o.kinds[base] = d.kind; continue; }
+        { std::string pd, pb; split_path(base, &pd, &pb); mkdirs(pd); }
         FILE* f = __real_fopen(base.c_str(), "w"); if (f) { fprintf(f, "decoy %s %s\n", d.kind.c_str(), d.rel.c_str()); __real_fclose(f); }
         o.kinds[base] = d.kind;
     }
